@@ -21,5 +21,5 @@ CHECK = {
  'level_text': 'all signal-arrival points x write-fault combinations up to a deviation bound, each execution run to completion on the real code; final device state checked',
  'level_note': 'bounded by deviation count (reported) and the listed configurations; the long initialisation sequence is cancelled at every 97th operation in quick, at every operation in thorough',
  'runs': [{'pkg': 'internal/controller', 'test': 'TestVX_C03run', 'shards_quick': 16, 'shards_thorough': 16},
-          {'pkg': 'internal', 'test': 'TestVX_C03daemon', 'shards_quick': 7, 'shards_thorough': 7, 'gomaxprocs': '4'}],
+          {'pkg': 'internal', 'test': 'TestVX_C03daemon', 'shards_quick': 8, 'shards_thorough': 8, 'gomaxprocs': '4'}],
 }
